@@ -10,7 +10,7 @@ ANCHORS = ['edxml/event.py', 'edxml/ontology/event_type.py', 'edxml/ontology/eve
 IMPORTS = 'From EdxmlVerif Require Import Base.Prelude Base.Bytes Event.Hash Event.Hash_proofs Generated.C01_gen.'
 NAMES = ['ip', 'ip2', 'host', 'host-name', 'user', 'user.name', 'a', 'b', 'ip-2', 'a.b']
 VALUES = ['x', 'y', 'x:y', 'a:b:c', '', 'ÿ', 'ÿÿ', 'é', '€', '\U0001f600', '\U0010ffff', 'z z', ' lead', 'trail ',
-          '10.0.0.1', 'ip:1', 'A', 'a', 'Ā', '~', '\x7f', 'line\nbreak', ':', '::', 'xÿy']
+          '10.0.0.1', 'ip:1', 'A', 'a', 'Ā', '~', '\x7f', 'line\nbreak', ':', '::', 'xÿy', '7', '42', '-3']
 STRATS = ['match', 'match', 'any', 'add', 'set']
 
 
@@ -82,6 +82,10 @@ def build(case):
     plain2 = EDXMLEvent(vals_perm, case['typ'], case['src'], None, None)
     elem = EventElement(case['values'], case['typ'], case['src'], case['parents'] or None, attd)
     elem2 = EventElement.create_from_event(plain2)
+    # objects given as different Python values with one string form (7 and '7'): one object
+    mixed = {k: [x for v in vs for x in ([v, int(v)] if v.lstrip('-').isdigit() else [v])] for k, vs in case['values'].items()}
+    reps_mixed = {'EDXMLEvent/objects-as-int-and-str': EDXMLEvent(mixed, case['typ'], case['src']),
+                  'EventElement/objects-as-int-and-str': EventElement(mixed, case['typ'], case['src'])}
     reps = {'EDXMLEvent': plain, 'EDXMLEvent/permuted-no-parents-no-attachments': plain2, 'EventElement': elem,
             'EventElement/from-permuted': elem2, 'ParsedEvent': parsed[0], 'ParsedEvent/permuted-xml': parsed[1]}
     # the same logical event reached through public mutators (assignment, add, copy_properties_from, move_properties_from,
@@ -128,6 +132,7 @@ def build(case):
                 w.add_ontology(onto)
                 w.add_event(ev)
             reps['ParsedEvent/round-trip-of-built-' + kind] = parse_one(buf.getvalue())
+    reps.update(reps_mixed)
     return etype, onto, reps
 
 
